@@ -6,10 +6,17 @@ pub mod c01;
 pub mod c02;
 pub mod c03;
 pub mod c04;
+pub mod c06;
 pub mod c07;
+pub mod c10;
+pub mod c11;
 pub mod c12;
 pub mod c13;
+pub mod c14;
 pub mod c15;
+pub mod c16;
+pub mod c17;
+pub mod c18;
 pub mod c19;
 pub mod c20;
 
@@ -19,10 +26,17 @@ pub fn registry() -> Vec<PropMeta> {
         meta::<c02::C02>(),
         meta::<c03::C03>(),
         meta::<c04::C04>(),
+        meta::<c06::C06>(),
         meta::<c07::C07>(),
+        meta::<c10::C10>(),
+        meta::<c11::C11>(),
         meta::<c12::C12>(),
         meta::<c13::C13>(),
+        meta::<c14::C14>(),
         meta::<c15::C15>(),
+        meta::<c16::C16>(),
+        meta::<c17::C17>(),
+        meta::<c18::C18>(),
         meta::<c19::C19>(),
         meta::<c20::C20>(),
     ]
